@@ -336,6 +336,35 @@ class C04(Spec):
 from .families import fxpfam  # noqa: E402
 
 
+PROD_ENUM_BASE = 20
+PROD_PATTERNS = [(n, mask) for n in range(2, 8) for mask in range(1 << n)]      # 252 whole/non-whole patterns
+
+
+def _prod_pattern_case(seed, cfg, all_outputs=False):
+    """prod() over a list with a given pattern of whole and non-whole elements (lengths 2..7, all patterns): the
+    pairwise product tree keeps per-element integrality flags that select exact division or secure truncation."""
+    from fractions import Fraction as Fr
+    i = seed % 1000003 - PROD_ENUM_BASE
+    if not 0 <= i < len(PROD_PATTERNS):
+        return None
+    n, mask = PROD_PATTERNS[i]
+    td = ({'l': 32, 'f': 16}, {'l': 24, 'f': 12}, {'l': 16, 'f': 8})[i % 3]
+    whole = (2, 3, -1, 1, -2)
+    gen_ = (Fr(85197, 65536), Fr(-5329, 4096), Fr(333, 256), Fr(71, 64))       # non-whole, odd numerators
+    vals = []
+    for j in range(n):
+        if mask >> j & 1:
+            v = gen_[(i + j) % len(gen_)]
+            while v.denominator > (1 << td['f']):
+                v = Fr(v.numerator // 2 | 1, v.denominator // 2)
+            vals.append(v)
+        else:
+            vals.append(Fr(whole[(i + j) % len(whole)]))
+    outs = ['p'] + (['x'] if all_outputs else [])
+    prog = fxpfam.gen_fixed(cfg, td, vals, [['prod', ['p'], ['x'], {}]], outs, sender=i % max(1, cfg.m))
+    return {'family': 'fxp', 'cfg': cfg.to_json(), 'prog': prog, 'seed': seed}
+
+
 @_register
 class C02(Spec):
     check_id = 'C02'
@@ -348,6 +377,9 @@ class C02(Spec):
     def make_case(self, seed, tier):
         rng = random.Random(f'C02/{seed}')
         cfg = sample_cfg(rng, tier)
+        enum = _prod_pattern_case(seed, cfg)
+        if enum is not None:
+            return enum
         prog = fxpfam.gen(rng, cfg, tier, effects=rng.random() < 0.15,
                           kf={7: ('div',), 13: ('integrality',), 17: ('small_divisor',)}.get(seed % 20))
         return {'family': 'fxp', 'cfg': cfg.to_json(), 'prog': prog, 'seed': seed,
@@ -367,6 +399,9 @@ class C03(Spec):
     def make_case(self, seed, tier):
         rng = random.Random(f'C03/{seed}')
         cfg = sample_cfg(rng, tier)
+        enum = _prod_pattern_case(seed, cfg, all_outputs=True)
+        if enum is not None:
+            return enum
         prog = fxpfam.gen(rng, cfg, tier, all_outputs=True, trig=False, kf=('integrality',) if seed % 20 == 7 else None)
         return {'family': 'fxp', 'cfg': cfg.to_json(), 'prog': prog, 'seed': seed}
 
@@ -1334,6 +1369,11 @@ def _kf_c38(self, tier):
 C38.kf_cases = _kf_c38
 
 
+def batch_known():
+    from . import batch
+    return batch.load_known()
+
+
 def _ks(a, b):
     """Two-sample Kolmogorov-Smirnov statistic."""
     a, b = sorted(a), sorted(b)
@@ -1361,7 +1401,7 @@ class C18(Spec):
     level_text = ('weak statistical evidence by design: detects missing, reused or grossly short masks (mask shorter than '
                   'about log2(N) bits of the k required); it cannot certify statistical distance 2^-k, which would need far '
                   'more than 2^k samples')
-    quick = {'runs': 4800, 'wall': 85}
+    quick = {'runs': 8400, 'wall': 85}
     thorough = {'runs': 400000, 'wall': 900}
     expected_probes = ('internal_openings', 'prss_evaluations')
     rule = ('one evaluation = one simulated 3..5-party run of a small template program (comparison, lsb, mod, to_bits, '
@@ -1388,6 +1428,13 @@ class C18(Spec):
         ('mod3-64', 'int', {'l': 64}, (3, 3 << 60), [['mod', ['r'], ['a'], {'b': 3}]]),
         ('floordiv', 'int', {'l': 16}, (10, 30000), [['floordiv', ['r'], ['a'], {'b': 10}]]),
         ('trunc', 'fxp', {'l': 24, 'f': 8}, ([3, 2], [524287, 16]), [['sqr', ['r'], ['a'], {}]]),
+        # zero tests and reciprocals in small (< k bits), medium and large prime fields: the product a*r is a degree-2t
+        # sharing when it is opened
+        ('fld-izp-small', 'fld', {'p': 65537, 'd': 1, 'how': 'order'}, (5, 30000), [['is_zero_public', ['r'], ['a'], {}]]),
+        ('fld-izp-medium', 'fld', {'p': (1 << 31) - 1, 'd': 1, 'how': 'order'}, (5, 1 << 30), [['is_zero_public', ['r'], ['a'], {}]]),
+        ('fld-izp-large', 'fld', {'p': (1 << 61) - 1, 'd': 1, 'how': 'order'}, (5, 1 << 60), [['is_zero_public', ['r'], ['a'], {}]]),
+        ('fld-recip-small', 'fld', {'p': 65537, 'd': 1, 'how': 'order'}, (5, 30000), [['reciprocal', ['r'], ['a'], {}]]),
+        ('fld-recip-large', 'fld', {'p': (1 << 61) - 1, 'd': 1, 'how': 'order'}, (5, 1 << 60), [['reciprocal', ['r'], ['a'], {}]]),
         ('fxp-cmp', 'fxp', {'l': 24, 'f': 8}, ([3, 2], [524287, 16]), [['ltc', ['r'], ['a'], {'c': [0, 1]}]]),
     ]
 
@@ -1405,6 +1452,10 @@ class C18(Spec):
         if fam == 'int':
             prog = intfam.gen_fixed(cfg, td['l'], [('a', a)], [list(s) for s in stmts], ['c0'], sender=0)
             prog['stmts'].append(['const', ['c0'], [], {'value': 1}])
+        elif fam == 'fld':
+            prog = {'family': 'fld', 'type': dict(td),
+                    'stmts': [['input', ['a'], [], {'sender': 0, 'value': a, 'dummy': 1}]] + [list(s) for s in stmts] +
+                             [['const', ['c0'], [], {'value': 1}]], 'outputs': ['c0']}
         else:
             prog = {'family': 'fxp', 'type': td, 'tags': [],
                     'stmts': [['input', ['a'], [], {'sender': 0, 'value': a, 'dummy': [1, 2]}]] + [list(s) for s in stmts] +
@@ -1445,14 +1496,42 @@ class C18(Spec):
                             f'template {tpl} ({"no PRSS" if noprss else "PRSS"}), values opened at {site}: the two secret inputs give '
                             f'different distributions (KS={d:.3f} > {crit:.3f}, n={n0}+{n1})', None))
             nz = [b for b in bits if b > 1]
-            if nz and max(nz) < 30 + 1 - 3 and len(nz) >= 50:
+            if nz and max(nz) < 30 + 1 - 3 and len(nz) >= 50 and not tpl.startswith('fld-'):   # additive masks only
                 out.append(('invariant:mask-too-short',
                             f'template {tpl}, values opened at {site}: largest of {len(nz)} opened values has {max(nz)} bits; '
                             f'a k=30 bit mask would give at least 28', None))
-        return out[:3]
+        # product shape of opened degree-2t polynomials (t = 1 runs)
+        sq = {}
+        for ex in agg.extras:
+            for key, bits_, b in ex.get('sq', []):
+                g = sq.setdefault((ex['tpl'], ex['noprss'], key, bits_), [0, 0])
+                g[0] += 1
+                g[1] += b
+        known = [k for k in batch_known() if k.get('status') == 'finding' and 'C18' in
+                 (k['property'] if isinstance(k['property'], list) else [k['property']])]
+        self._sq_summary = {}
+        kf_hits = {}
+        for (tpl, noprss, key, bits_), (n, nsq) in sorted(sq.items()):
+            self._sq_summary[f'{tpl}/{"noprss" if noprss else "prss"}/{key}'] = {'n': n, 'square_discriminant': nsq}
+            if n >= 40 and nsq >= 0.9 * n:
+                msg = (f'template {tpl} ({"no PRSS" if noprss else "PRSS"}), {key}: the degree-2t polynomial opened there '
+                       f'(field of {bits_} bits) had a square discriminant in {nsq} of {n} runs with t=1 (expected about half): '
+                       f'it is a product of two degree-t sharings that was not re-randomised, so every single party can '
+                       f'solve for the secret factor from the shares it receives')
+                fns = {part.split(':')[0] for part in key.replace('diff:', '').split('|')}
+                k = next((k for k in known if k['signature'].get('sites') and fns <= set(k['signature']['sites'])
+                          and bits_ >= k['signature'].get('min_field_bits', 0)), None)
+                if k is not None:
+                    kf_hits[k['id']] = kf_hits.get(k['id'], 0) + 1
+                else:
+                    out.append(('invariant:opened-product-not-rerandomised', msg, None))
+        for kid, cnt in sorted(kf_hits.items()):
+            out.append((f'known-finding:{kid}', f'{cnt} (template, site) combination(s)', None))
+        return out[:6]
 
     def evidence_extra(self, agg, tier):
         return {'opening_sites_compared': getattr(self, '_summary', {}),
+                'opened_degree_2t_polynomials_t1': getattr(self, '_sq_summary', {}),
                 'detectable': 'missing / reused masks and masks shorter than ~log2(n) bits; NOT distance 2^-k'}
 
 
@@ -1469,5 +1548,48 @@ class _OpeningExtract:
                 xs.append(v / order)
                 bits.append(v.bit_length())
         res.info['extra'] = {'tpl': self.case.get('template'), 'pop': self.case.get('pop'), 'noprss': int(w.cfg.no_prss),
-                             'sites': [(s, xs, bits) for s, (xs, bits) in sorted(sites.items())]}
+                             'sites': [(s, xs, bits) for s, (xs, bits) in sorted(sites.items())],
+                             'sq': _product_shape(w, res.info.get('share_openings') or {})}
         res.info.pop('openings', None)
+        res.info.pop('share_openings', None)
+
+
+from . import oracles as _oracles  # noqa: E402
+
+
+def _is_square(a, p):
+    a %= p
+    return a == 0 or pow(a, (p - 1) // 2, p) == 1
+
+
+def _product_shape(w, share_openings):
+    """For t = 1: every degree-2t polynomial opened inside the library, and the difference of two consecutive ones
+    opened by the same function, is interpolated god's-eye from the parties' shares; a product of two degree-1
+    polynomials (a sharing times a mask that was not re-randomised) always has a square discriminant, a properly
+    re-randomised one in about half of the cases.  Returns [(key, field bits, is_square)]."""
+    m, t = w.cfg.m, w.cfg.t
+    if t != 1 or m < 3:
+        return []
+    out = []
+    polys = []
+    for (site, pc), rec in sorted(share_openings.items(), key=lambda kv: kv[1]['seq']):
+        p = rec['order']
+        if rec['thr'] != 2 * t or len(rec['shares']) != m or p < 5 or not _oracles._is_probable_prime(p):
+            continue
+        n = min(len(v) for v in rec['shares'].values())
+        for e in range(n):
+            ys = [rec['shares'][i][e] for i in range(m)]
+            # quadratic through x = 1, 2, 3
+            c2 = (ys[0] - 2 * ys[1] + ys[2]) * pow(2, -1, p) % p
+            c1 = (ys[1] - ys[0] - 3 * c2) % p
+            c0 = (ys[0] - c1 - c2) % p
+            if any((c0 + c1 * (i + 1) + c2 * (i + 1) ** 2 - ys[i]) % p for i in range(3, m)):
+                continue
+            out.append((site, p.bit_length(), int(_is_square(c1 * c1 - 4 * c0 * c2, p))))
+            polys.append((site, p, e, (c0, c1, c2)))
+    for (s1, p1, e1, q1), (s2, p2, e2, q2) in zip(polys, polys[1:]):
+        if p1 == p2 and e1 == e2 and s1.split(':')[0] == s2.split(':')[0] and s1 != s2:
+            d0, d1, d2 = ((a - b) % p1 for a, b in zip(q1, q2))
+            if d2:
+                out.append((f'diff:{s1}|{s2}', p1.bit_length(), int(_is_square(d1 * d1 - 4 * d0 * d2, p1))))
+    return out
